@@ -795,14 +795,17 @@ def _emit_fn(asm, out, unit, kv, block, default_props):
                     last = kk + 1
             inserts.append((last, '\n        ' + text + '\n'))
         else:
-            m = re.match(r'loop(\d+)\.(start|end)', where)
+            m = re.match(r'loop(\d+)\.(start|end|before)', where)
             if not m:
                 raise ExtractError("bad anchor %s" % where)
             n = int(m.group(1))
             if n >= len(lps):
                 continue
             kind, kwpos, ob, cb = lps[n]
-            inserts.append((ob + 1 if m.group(2) == 'start' else cb, '\n            ' + text + '\n'))
+            if m.group(2) == 'before':
+                inserts.append((kwpos, ' ' + text + '\n            '))
+            else:
+                inserts.append((ob + 1 if m.group(2) == 'start' else cb, '\n            ' + text + '\n'))
     for (aname, where, anchor, expr) in named_asserts:
         befores.append((where, anchor, ('named_assert', aname, expr)))
     for ba, anchor, text in befores:
